@@ -129,6 +129,11 @@ struct Entry {
 }
 
 const UNSUPPORTED_ALGS: &[&str] = &["HS256", "RS256", "PS512", "ES384", "none", "ES512"];
+/// Other spellings / other registries' names of the algorithms the harness keys implement: a header carrying one of these
+/// names an algorithm other than EdDSA / ES256 / ES256K, whatever a lenient parser may map it to.
+const ALIAS_ALGS: &[&str] = &[
+  "Ed25519", "ED25519", "ed25519", "eddsa", "EDDSA", "EdDsa", "Ed448", "EdDSA ", " EdDSA", "ES256k", "es256", "es256k", "ES256K-R", "secp256k1", "P-256", "ECDSA", "ES256 ",
+];
 
 fn esc_variant(rng: &mut Rng, s: &str) -> String {
   // JSON string literal, sometimes with a \uXXXX escape for the first character
@@ -176,6 +181,15 @@ impl Gen<'_> {
       0 => None,
       1 | 2 => Some(rng.pick(UNSUPPORTED_ALGS).to_string()),
       4 => Some("none".to_string()),
+      5 | 6 => {
+        // half of the time a spelling that "belongs" to the signer's algorithm family
+        let family: &[&str] = match alg.name() {
+          "EdDSA" => &["Ed25519", "ED25519", "ed25519", "eddsa", "EDDSA", "EdDsa", "EdDSA ", " EdDSA"],
+          "ES256" => &["es256", "P-256", "ECDSA", "ES256 "],
+          _ => &["ES256k", "es256k", "ES256K-R", "secp256k1"],
+        };
+        Some(if rng.bool() { rng.pick(family).to_string() } else { rng.pick(ALIAS_ALGS).to_string() })
+      }
       3 => Some(rng.pick(&Alg::ALL).name().to_string()), // may differ from the signer's
       _ => Some(alg.name().to_string()),
     };
@@ -286,7 +300,28 @@ impl Gen<'_> {
 
   fn payload(&mut self) -> Vec<u8> {
     let rng = &mut *self.rng;
-    match rng.below(8) {
+    match rng.below(10) {
+      // payloads a "helpful" decoder might be tempted to tidy up (BOM, surrounding whitespace, trailing NUL / newline)
+      8 => {
+        let core: &[u8] = br#"{"iss":"did:example:c01"}"#;
+        let (pre, post): (&[u8], &[u8]) = *rng.pick(&[
+          (&b"\xEF\xBB\xBF"[..], &b""[..]),
+          (&b"\xEF\xBB\xBF"[..], &b"\n"[..]),
+          (&b" "[..], &b" "[..]),
+          (&b"\n\t"[..], &b"\r\n"[..]),
+          (&b""[..], &b"\0"[..]),
+          (&b"\xFE\xFF"[..], &b""[..]),
+          (&b"\xEF\xBB\xBF\xEF\xBB\xBF"[..], &b""[..]),
+        ]);
+        [pre, core, post].concat()
+      }
+      9 => {
+        // the same decorations around arbitrary bytes
+        let mut v: Vec<u8> = rng.pick(&[&b"\xEF\xBB\xBF"[..], &b" "[..], &b"\0"[..], &b"="[..]]).to_vec();
+        let n = rng.usize(12);
+        v.extend(rng.bytes(n));
+        v
+      }
       0 => br#"{"iss":"did:example:c01","exp":1300819380,"nested":{"a":[1,2,3]}}"#.to_vec(),
       1 => {
         let n = rng.usize(40) + 1;
